@@ -38,7 +38,8 @@ import (
 // + daemon + wallet service + key-value storage).  Requests go through
 // httptest.ResponseRecorder; no socket is opened.
 
-const apiHost = "127.0.0.1:6420"
+// apiHost is the address the web interface is configured with in the current run (C27 varies it).
+var apiHost = "127.0.0.1:6420"
 
 // route is one documented endpoint: parsed from src/api/README.md at check
 // time, which serves as the specification independent of the mux.
@@ -279,6 +280,14 @@ func runAccess(c *sim.Ctx) {
 	if t.Chance("host-whitelist", 1, 3) {
 		cfg.HostWhitelist = []string{"wallet.example:8080"}
 	}
+	// the interface the server is bound to: loopback (the Host header is checked against DNS rebinding), or a
+	// public one (the Host header is not checked there, Origin / Referer still are)
+	apiHost = []string{"127.0.0.1:6420", "192.168.1.10:6420", "0.0.0.0:6420"}[t.Pick("api-interface", 3, 1, 1)]
+	defer func() { apiHost = "127.0.0.1:6420" }()
+	hostIsLocal := strings.HasPrefix(apiHost, "127.")
+	if !hostIsLocal {
+		c.Count("mode.public_interface")
+	}
 	a := newAPINode(c, cfg, 1+t.Int("api-blocks", 2))
 	defer a.close()
 	n := t.Range("api-requests", 20, 60)
@@ -368,12 +377,12 @@ func runAccess(c *sim.Ctx) {
 			q.host = "localhost:6420"
 		case 2:
 			q.host = "evil.example:6420"
-			if headerCheck {
+			if headerCheck && hostIsLocal {
 				failing["host"] = true
 			}
 		case 3:
 			q.host = "wallet.example:8080"
-			if headerCheck && len(cfg.HostWhitelist) == 0 {
+			if headerCheck && hostIsLocal && len(cfg.HostWhitelist) == 0 {
 				failing["host"] = true
 			}
 		}
